@@ -537,4 +537,211 @@ theorem positiveCombo_good {t} (h : TI .positive t) (kind : Kind) (p : Slot → 
   apply good_withContainer h kind _ .positive _ (Or.inr rfl)
   simp [labelOf, anyNegative_filter p _ (base_clean h kind)]
 
+theorem optionalCombos_good {m0 t} (h : TI m0 t) (kind : Kind) (location : String) (required : List String)
+    (pos neg : Bool) (hpos : pos = true → m0 = .positive) :
+    ∀ (opts : List String) (calls : List (List LV)),
+      ∀ c ∈ (optionalCombos t kind location ((getAssoc kind t.conts).getD []) required pos neg opts calls).1, Good c := by
+  intro opts
+  induction opts with
+  | nil => intro calls c hc; simp [optionalCombos] at hc
+  | cons opt rest ih =>
+    intro calls c hc
+    unfold optionalCombos at hc
+    simp only at hc
+    split at hc
+    · rename_i hcond
+      have hp : pos = true := by
+        simp only [Bool.and_eq_true] at hcond; exact hcond.2
+      have hm0 := hpos hp
+      subst hm0
+      split at hc
+      · rw [List.mem_append, List.mem_cons] at hc
+        rcases hc with (hc | hc) | hc
+        · subst hc; exact positiveCombo_good h kind _ _ _
+        · exact yieldNegative_good h kind location _ c hc
+        · exact ih _ c hc
+      · simp only [List.mem_cons] at hc
+        rcases hc with hc | hc
+        · subst hc; exact positiveCombo_good h kind _ _ _
+        · exact ih _ c hc
+    · exact ih _ c hc
+
+theorem comboBlock_good {m0 t} (h : TI m0 t) (location : String) (pset : List ParamIn) (pos neg : Bool)
+    (hpos : pos = true → m0 = .positive) (calls : List (List LV)) (cs : List Case) (calls' : List (List LV))
+    (he : comboBlock t location pset pos neg calls = some (cs, calls')) : ∀ c ∈ cs, Good c := by
+  unfold comboBlock at he
+  split at he
+  · simp only [Option.some.injEq, Prod.mk.injEq] at he
+    obtain ⟨rfl, _⟩ := he
+    intro c hc; simp at hc
+  · cases hk : kindOfLocation location with
+    | none => simp [hk] at he
+    | some kind =>
+      simp only [hk, Option.some.injEq, Prod.mk.injEq] at he
+      obtain ⟨he, _⟩ := he
+      subst he
+      intro c hc
+      simp only [List.mem_append] at hc
+      rcases hc with (hc | hc) | hc
+      · -- step 1
+        split at hc
+        · split at hc
+          · simp only [List.mem_append] at hc
+            rcases hc with hc | hc
+            · split at hc
+              · rename_i hp
+                have hm0 := hpos hp; subst hm0
+                simp only [List.mem_cons, List.mem_nil_iff, or_false] at hc
+                subst hc; exact positiveCombo_good h kind _ _ _
+              · simp at hc
+            · exact yieldNegative_good h kind location _ c hc
+          · split at hc
+            · rename_i hp
+              have hm0 := hpos hp; subst hm0
+              simp only [List.mem_cons, List.mem_nil_iff, or_false] at hc
+              subst hc; exact positiveCombo_good h kind _ _ _
+            · simp at hc
+        · simp at hc
+      · exact optionalCombos_good h kind location _ pos neg hpos _ _ c hc
+      · -- step 3
+        split at hc
+        · rename_i hcond
+          have hp : pos = true := by
+            simp only [Bool.and_eq_true] at hcond; exact hcond.2
+          have hm0 := hpos hp; subst hm0
+          simp only [List.mem_flatMap, List.mem_filterMap] at hc
+          obtain ⟨size, _, sel, _, hsel⟩ := hc
+          split at hsel
+          · simp only [Option.some.injEq] at hsel; subst hsel
+            exact positiveCombo_good h kind _ _ _
+          · simp at hsel
+        · simp at hc
+
+theorem wf_facts (inp : OpIn) (hwf : WF inp) :
+    (∀ p ∈ inp.params, kindOfLocation p.location ≠ some Kind.body ∧ ∀ v rest, p.values = v :: rest → v.mode = baseMode inp) ∧
+    (∀ p ∈ inp.params, ∀ v ∈ p.values, v.mode = .negative ∨ baseMode inp = .positive) ∧
+    (∀ b ∈ inp.bodies, (∀ v rest, b.values = v :: rest → v.mode = baseMode inp) ∧
+        ∀ v ∈ b.values, v.mode = .negative ∨ baseMode inp = .positive) ∧
+    (inp.pos = true → baseMode inp = .positive) := by
+  unfold baseMode
+  cases hp : inp.pos with
+  | true =>
+    obtain ⟨h1, h2⟩ := hwf.headsPos hp
+    refine ⟨?_, ?_, ?_, ?_⟩
+    · intro p hpm; exact ⟨hwf.nobody p hpm, fun v rest hv => by simpa using h1 p hpm v rest hv⟩
+    · intro p _ v _; right; rfl
+    · intro b hb; exact ⟨fun v rest hv => by simpa using h2 b hb v rest hv, fun v _ => Or.inr rfl⟩
+    · intro _; rfl
+  | false =>
+    obtain ⟨h1, h2⟩ := hwf.allNeg hp
+    refine ⟨?_, ?_, ?_, ?_⟩
+    · intro p hpm
+      exact ⟨hwf.nobody p hpm, fun v rest hv => by simpa using h1 p hpm v (by simp [hv])⟩
+    · intro p hpm v hv; left; exact h1 p hpm v hv
+    · intro b hb
+      exact ⟨fun v rest hv => by simpa using h2 b hb v (by simp [hv]), fun v hv => Or.inl (h2 b hb v hv)⟩
+    · intro e; cases e
+
+/-- all cases of the repaired `_iter_coverage_cases` are good under the well-formedness of its inputs -/
+theorem iterCases_good (inp : OpIn) (hwf : WF inp) (cs : List Case) (he : iterCases .repaired inp = some cs) :
+    ∀ c ∈ cs, Good c := by
+  obtain ⟨hheads, hvals, hbodies, hposm⟩ := wf_facts inp hwf
+  unfold iterCases at he
+  cases ht0 : buildTemplate inp.params {} with
+  | none => simp [ht0] at he
+  | some t0 =>
+    simp only [ht0] at he
+    have hti0 : TI (baseMode inp) t0 := buildTemplate_TI inp.params {} t0 (TI_empty _) hheads ht0
+    -- the body block / default case
+    have hbp : (∀ c ∈ (if inp.hasBody then bodyCases .repaired inp.bodies t0
+                       else if inp.pos then ([mkCase .positive (t0.comps, t0.contents) .defaultPositive none none], t0)
+                       else ([], t0)).1, Good c) ∧
+               TI (baseMode inp) (if inp.hasBody then bodyCases .repaired inp.bodies t0
+                       else if inp.pos then ([mkCase .positive (t0.comps, t0.contents) .defaultPositive none none], t0)
+                       else ([], t0)).2 := by
+      split
+      · exact bodyCases_good inp.bodies t0 hti0 hbodies
+      · split
+        · rename_i hp
+          refine ⟨?_, hti0⟩
+          intro c hc
+          simp only [List.mem_cons, List.mem_nil_iff, or_false] at hc
+          subst hc
+          exact mkCase_good (good_template hti0 (hposm hp))
+        · exact ⟨by intro c hc; simp at hc, hti0⟩
+    generalize (if inp.hasBody then bodyCases .repaired inp.bodies t0
+                else if inp.pos then ([mkCase .positive (t0.comps, t0.contents) .defaultPositive none none], t0)
+                else ([], t0)) = bp at he hbp
+    obtain ⟨hbcases, hti⟩ := hbp
+    cases hpc : parameterCases bp.2 inp.params with
+    | none => simp [hpc] at he
+    | some pcs =>
+      simp only [hpc] at he
+      have hpcs := parameterCases_good hti inp.params pcs hvals hpc
+      split at he
+      · simp at he
+      · rename_i ncs hneg
+        have hncs : ∀ c ∈ ncs, Good c := by
+          split at hneg
+          · cases hd : duplicateCases bp.2 (inp.params.filter (·.location == "query")) with
+            | none => simp [hd] at hneg
+            | some d =>
+              cases hm : missingCases bp.2 inp.params with
+              | none => simp [hd, hm] at hneg
+              | some m =>
+                simp only [hd, hm, Option.some.injEq] at hneg
+                subst hneg
+                intro c hc
+                simp only [List.mem_append] at hc
+                rcases hc with (hc | hc) | hc
+                · exact methodCases_good hti inp.methods c hc
+                · exact duplicateCases_good hti _ d hd c hc
+                · exact missingCases_good hti inp.params m hm c hc
+          · simp only [Option.some.injEq] at hneg; subst hneg; intro c hc; simp at hc
+        split at he
+        · simp at he
+        · rename_i c1 calls1 hc1
+          split at he
+          · simp at he
+          · rename_i c2 calls2 hc2
+            split at he
+            · simp at he
+            · rename_i c3 calls3 hc3
+              simp only [Option.some.injEq] at he
+              subst he
+              intro c hc
+              simp only [List.mem_append] at hc
+              rcases hc with ((((hc | hc) | hc) | hc) | hc) | hc
+              · exact hbcases c hc
+              · exact hpcs c hc
+              · exact hncs c hc
+              · exact comboBlock_good hti "query" _ inp.pos inp.neg hposm _ c1 calls1 hc1 c hc
+              · exact comboBlock_good hti "header" _ inp.pos inp.neg hposm _ c2 calls2 hc2 c hc
+              · exact comboBlock_good hti "cookie" _ inp.pos inp.neg hposm _ c3 calls3 hc3 c hc
+
+/-- away from the F8 site the two variants of the body block coincide -/
+theorem bodyCases_asFound_eq : ∀ (bs : List BodyIn) (t : Template),
+    (∀ b ∈ bs, ∀ v rest, b.values = v :: rest → ∀ w ∈ rest, w.mode = v.mode) →
+    bodyCases .asFound bs t = bodyCases .repaired bs t := by
+  intro bs
+  induction bs with
+  | nil => intro t _; rfl
+  | cons b rest ih =>
+    intro t hb
+    have hrest : ∀ q ∈ rest, _ := fun q hq => hb q (by simp [hq])
+    unfold bodyCases
+    cases hv : b.values with
+    | nil => simp only; exact ih t hrest
+    | cons v more =>
+      simp only
+      rw [ih _ hrest]
+      have hm := hb b (by simp) v more hv
+      have : (more.map fun nv => mkCase v.mode ((if t.body.isNone then t.setBody v else t).withBody nv) (.value nv.desc)
+                (some b.mediaType) (some "body")) =
+             (more.map fun nv => mkCase nv.mode ((if t.body.isNone then t.setBody v else t).withBody nv) (.value nv.desc)
+                (some b.mediaType) (some "body")) := by
+        apply List.map_congr_left
+        intro w hw; rw [hm w hw]
+      rw [this]
+
 end SV.Proofs.C03
